@@ -186,6 +186,13 @@ class IntAccessor(Accessor):
         return
 
 
+def _json_default(o: Any) -> Any:
+    """Byte arrays are not json serializable by default, formats them as lists."""
+    if isinstance(o, (bytes, bytearray)):
+        return list(o)
+    raise TypeError(f"Object of type {o.__class__.__name__} is not JSON serializable")
+
+
 class MessageBase(Accessor):
     """MessageBase is the base class for all bitproto message classes."""
 
@@ -199,7 +206,12 @@ class MessageBase(Accessor):
         self, indent: Optional[int] = None, separators: Optional[Tuple[str, str]] = None
     ) -> str:
         """Dumps this message to a json string."""
-        return json.dumps(self.to_dict(), indent=indent, separators=separators)
+        return json.dumps(
+            self.to_dict(),
+            indent=indent,
+            separators=separators,
+            default=_json_default,
+        )
 
 
 class Processor:
